@@ -469,7 +469,7 @@ func corrupt(t *rapid.T, p *ir.Program) (string, bool) {
 		return "", false
 	}
 	s := plug[rapid.IntRange(0, len(plug)-1).Draw(t, "corrupt_step")]
-	kind := rapid.SampledFrom([]string{"dangling-step", "dangling-output", "dangling-stage", "dangling-input-field", "wrong-literal-type", "missing-required-input", "self-cycle", "back-edge", "dangling-output-ref", "unknown-input-key", "missing-input-key", "missing-input-key", "oneof-discriminator-is-a-field", "oneof-option-not-an-object", "bare-root-expression"}).Draw(t, "corruption")
+	kind := rapid.SampledFrom([]string{"dangling-step", "dangling-output", "dangling-stage", "dangling-input-field", "wrong-literal-type", "missing-required-input", "self-cycle", "back-edge", "dangling-output-ref", "unknown-input-key", "missing-input-key", "missing-input-key", "oneof-discriminator-is-a-field", "oneof-option-not-an-object", "bare-root-expression", "input-ref-to-undeclared-object"}).Draw(t, "corruption")
 	switch kind {
 	case "dangling-step":
 		s.In = setFieldIR(s.In, "a", ir.StepRef("nosuchstep", "outputs", "success", "a"))
@@ -521,6 +521,8 @@ func corrupt(t *rapid.T, p *ir.Program) (string, bool) {
 		} else {
 			p.Outputs[0].E = ir.Obj(ir.F("x", ir.Ref()))
 		}
+	case "input-ref-to-undeclared-object":
+		p.DanglingInputRef = true
 	case "oneof-option-not-an-object":
 		// an option must be an object (the discriminator is added to it)
 		p.Outputs[0].E = ir.Obj(ir.F("pick", ir.OneOf("kind", ir.F("x", ir.StepRef(s.ID, "outputs", "success")), ir.F("n", ir.StepRef(s.ID, "outputs", "success", "a")))))
